@@ -71,7 +71,7 @@ def env_line_len(k, v): return len(k) + 1 + len(v) + 1
 
 def rand_child(rng, s, hid, allow_release=False, kind=None):
     """a terminating child with a random behaviour; returns the process id"""
-    kind = kind or rng.choice(["out", "out", "big", "exit", "sig", "closeout", "closectl", "grandchild", "env", "missing", "shell", "wrap", "queue", "mix", "badctl", "badid"])
+    kind = kind or rng.choice(["out", "out", "big", "exit", "sig", "closeout", "closectl", "grandchild", "env", "missing", "shell", "wrap", "queue", "mix", "badctl", "badid", "relout"])
     canint = rng.random() < 0.85
     if kind == "missing":
         return s.proc(hid, "x", 0, "exit0", missing=True, canint=canint, via=rng.choice(["own", "queue", "wrap"]))
@@ -79,6 +79,10 @@ def rand_child(rng, s, hid, allow_release=False, kind=None):
         code = rng.choice([0, 0, 1, 7])
         cmd = rng.choice(["exit %d", "true; exit %d", "(exit %d)"]) % code
         return s.proc(hid, "", 0, "exit%d" % code, via="shell", cmd=cmd)
+    if kind == "relout":
+        post, size = post_release_output(rng)
+        code = rng.choice([0, 0, 5])
+        return s.proc(hid, ";".join(["release"] + post + ["exit:%d" % code]), size, "exit%d" % code, release=True, canint=canint, ctl=True, via="own")
     acts = []; size = 0
     def out(n, stream=None):
         nonlocal size
@@ -233,24 +237,49 @@ def fam_procs(rng, sid):
     s.main.append(("destroy", ""))
     return s
 
+def post_release_output(rng):
+    """what a child writes after it has released its lane (read by the background wait, captureExecutedProcessOutput):
+    nothing / one write / several chunks separated by short pauses (so that the parent sees short reads long before
+    EOF) / more than the pipe buffer (100-300 kB, which blocks the child unless the parent keeps reading)"""
+    shape = rng.choice(["none", "single", "chunks", "chunks", "big", "big"])
+    acts = []; size = 0
+    def out(n):
+        nonlocal size
+        acts.append("%s:%d" % (rng.choice(["out", "out", "err"]), n)); size += n
+    if shape == "single":
+        acts.append("sleep:%d" % rng.choice([0, 5, 30])); out(rng.choice([100, 5000, 70000]))
+    elif shape == "chunks":
+        for _ in range(rng.randint(2, 5)):
+            out(rng.choice([1, 100, 3000, 4095, 4096, 5000, 20000])); acts.append("sleep:%d" % rng.randint(1, 8))
+    elif shape == "big":
+        if rng.random() < 0.5: out(rng.choice([10, 500])); acts.append("sleep:%d" % rng.randint(1, 6))
+        for _ in range(rng.randint(1, 3)):
+            out(rng.choice([100000, 150000, 200000, 300000]) // rng.choice([1, 1, 2]))
+            if rng.random() < 0.5: acts.append("sleep:%d" % rng.randint(1, 5))
+    else:
+        acts.append("sleep:%d" % rng.choice([0, 5, 30, 80]))
+    return acts, size
+
 def fam_release(rng, sid):
     """lane release over LLBUILD_CONTROL_FD: enough background slots (release must happen), too few (refused ones
-    keep their lane), wrong task id, destruction while released children are still running"""
+    keep their lane), wrong task id, destruction while released children are still running; after the release the child
+    writes nothing / once / several chunks with pauses / more than the pipe buffer (seeded change C16_2)"""
     s = Scn(sid, "release", lanes=rng.randint(1, 3), alg="fifo")
     nrel = rng.randint(1, 4); enough = rng.random() < 0.6
     s.bgmax = nrel if enough else rng.randint(0, max(0, nrel - 1))
     for i in range(nrel):
         h = "r%d" % i
-        post = ["sleep:%d" % rng.choice([0, 5, 30, 80])]
-        size = rng.choice([0, 100, 5000, 70000])
-        if size: post.append("out:%d" % size)
+        post, size = post_release_output(rng)
+        pre = []
+        if rng.random() < 0.3:          # output before the release goes through the poll loop, the rest through the drain loop
+            n0 = rng.choice([1, 200, 5000]); pre = ["out:%d" % n0]; size += n0
         code = rng.choice([0, 0, 2]); sig = rng.random() < 0.15
         end = "sig:15" if sig else "exit:%d" % code
         fate = "sig15" if sig else "exit%d" % code
         if enough:
-            s.proc(h, ";".join(["release", "waitfile:%T/" + h + ".rel"] + post + [end]), size, fate, release=True, mustrel=True, slowfin=rng.choice([0, 0, 2000, 20000]))
+            s.proc(h, ";".join(pre + ["release", "waitfile:%T/" + h + ".rel"] + post + [end]), size, fate, release=True, mustrel=True, slowfin=rng.choice([0, 0, 2000, 20000]))
         else:
-            s.proc(h, ";".join(["release"] + post + [end]), size, fate, release=True, slowfin=rng.choice([0, 0, 2000]))
+            s.proc(h, ";".join(pre + ["release"] + post + [end]), size, fate, release=True, slowfin=rng.choice([0, 0, 2000]))
         steps = [("spawn", h)]
         if rng.random() < 0.4:
             h2 = "x%d" % i; rand_child(rng, s, h2, kind=rng.choice(["out", "exit", "badid"])); steps.append(("spawn", h2))
